@@ -190,8 +190,8 @@ def _seen_atom(facts, found):
                 return 'c' if pos else ('not', 'c')
             return None
         tv = {v: closure_value(facts, q['cb'], bool_atom=ba, assumption={'c': v}, acc=q.get('acc')) for v in (True, False)}
-        if not hit:
-            return None
+        if not hit or len(set(hit)) != 1:
+            return None     # presence in one container only: `in dag || in orphans` is a different notion of "seen"
         if q['kind'] == 'forall' and tv == {True: True, False: False}:
             positive = True
         elif q['kind'] == 'exists' and tv == {True: False, False: True}:
